@@ -771,6 +771,12 @@ func (u *Unit) execDesignatedCase(n *ast.SwitchStmt, st *State, f Flow) {
 	}
 	cov := u.addObl(b.ID()+"/cover", u.props, cs, "false", "case reachable and its requires satisfiable", nil)
 	cov.Cover = true
+	// ghost call counters of a case contract count the calls made by the case itself
+	for k := range cs.named {
+		if strings.HasPrefix(k, "$calls:") || k == "$callsUnknown" {
+			delete(cs.named, k)
+		}
+	}
 	entry := cs.clone()
 	entry.heaps = map[string]Term{}
 	for k, v := range cs.heaps {
